@@ -234,7 +234,7 @@ VT = (ValueError, TypeError)
 
 
 class Case:
-    __slots__ = ('op', 'args', 'line', 'impl', 'viol')
+    __slots__ = ('op', 'args', 'line', 'impl', 'viol', 'nocompare')
 
     def __init__(self, op, *args):
         self.op = op
@@ -242,6 +242,7 @@ class Case:
         self.line = None
         self.impl = None
         self.viol = None      # (key, why)
+        self.nocompare = False   # outside the quantifier / a callback contract: measured, not compared
 
     def record(self):
         if self.op == 'rx':
@@ -476,6 +477,7 @@ def run_case(c, maxdigits):
             c.line = ' '.join(['svcd', enc_val(v)] + g_entries(table)) + fmt_table(table_for(strs), lowers)
             # the default_func contract: the default protocol is a str or falsy (props/C18.json)
             contract = not table.get((None, 'r')) or isinstance(table.get((None, 'r')), str)
+            c.nocompare = not contract      # what a contract-breaking callback causes is not compared
             try:
                 obj = util.Service.from_string(v, default_func=g)
                 c.impl = 'ok ' + fmt_svc(obj)
@@ -593,7 +595,9 @@ def evaluate(ctx, cases, res, tag):
     for i, c in enumerate(cases):
         if c.viol:
             res.violation(c.viol[0], c.record(), c.viol[1], impl=c.impl, scope=tag)
-        if model is not None and model[i] != c.impl and not bool_port_refused(c):
+        if c.nocompare:
+            res.count('outside_contract_not_compared:' + c.op)
+        elif model is not None and model[i] != c.impl and not bool_port_refused(c):
             res.disagreement(c.record(), c.impl, model[i], scope=tag, line=c.line[:300])
         res.count('op:' + c.op)
         if c.impl is not None and c.op not in ('split', 'show4', 'ip4', 'rx'):
